@@ -186,7 +186,7 @@ func readRequest(et int8, r io.Reader, raw *simio.Reader) reqOutcome {
 		k, n, s := classify(rw)
 		o := reqOutcome{ok: true, body: gb.V, kind: k, name: n, seqid: s, resp: rw}
 		if raw != nil {
-			o.used = int64(raw.Offset())
+			o.used = int64(raw.Offset() - raw.StartOffset())
 		}
 		return o
 	})
@@ -259,9 +259,9 @@ func RunC12(cfg simrt.Config, o world.Opts) *world.Result {
 		s.ChunkP0 = []float64{1, 0.5, 0}[ch("sim.chunkp0", 3)]
 		kind := o.Kind
 		if kind == "" {
-			kind = []string{"roundtrip", "clientserver", "pipe", "agreement"}[ch("c12.kind", 4)]
+			kind = []string{"roundtrip", "clientserver", "pipe", "agreement", "envserver"}[ch("c12.kind", 5)]
 		} else {
-			simrt.Pin("c12.kind", 4, map[string]int{"roundtrip": 0, "clientserver": 1, "pipe": 2, "agreement": 3}[kind])
+			simrt.Pin("c12.kind", 5, map[string]int{"roundtrip": 0, "clientserver": 1, "pipe": 2, "agreement": 3, "envserver": 4}[kind])
 		}
 		res.Count("c12.kind."+kind, 1)
 		res.Nontrivial = true
@@ -272,6 +272,8 @@ func RunC12(cfg simrt.Config, o world.Opts) *world.Result {
 			c12ClientServer(res, logf, h, false)
 		case "pipe":
 			c12ClientServer(res, logf, h, true)
+		case "envserver":
+			c12EnvServer(res, logf, h)
 		default:
 			c12Agreement(res, logf, h, o)
 		}
@@ -494,10 +496,18 @@ func c12ClientServer(res *world.Result, logf func(string, ...interface{}), h *wo
 			reply = w.Buf
 		}
 	} else {
-		plan := simio.GenPlan(len(b), false)
+		// the request may start in the middle of the underlying reader
+		data := b
+		start := 0
+		if simrt.Flip("cs.prefix", 0.3) {
+			start = 1 + ch("cs.prefix-len", 7)
+			data = append(bytes.Repeat([]byte{0x5a}, start), b...)
+		}
+		plan := simio.GenPlan(len(data), false)
+		plan.Start = start
 		tag = "ReadRequest over " + plan.String()
-		r, raw := simio.NewReader(b, plan)
-		raw.Budget = budgetFor(len(b))
+		r, raw := simio.NewReader(data, plan)
+		raw.Budget = budgetFor(len(data))
 		out = readRequest(et, r, raw)
 		if out.ok {
 			w := simio.NewWriter(-1)
